@@ -1156,7 +1156,7 @@ func run(c *vf.Ctx) {
 	c.Logf("bip39 done")
 
 	// bcrypt-bound parts
-	nArm := c.N(14, 140)
+	nArm := c.N(14, 100)
 	nMut := c.N(8, 0)
 	c.Parallel(nArm, workers, 400000, func(i int, r *rand.Rand) { armorCase(c, i, r, nMut, !c.Quick()) })
 	c.Logf("armor done")
@@ -1166,7 +1166,7 @@ func run(c *vf.Ctx) {
 	c.Parallel(nWin, workers, 600000, func(i int, r *rand.Rand) { bcryptWindowCase(c, i, r) })
 	c.Parallel(c.N(20, 200), workers, 700000, func(i int, r *rand.Rand) { plainArmorCase(c, i, r) })
 
-	c.Set("bcrypt_note", fmt.Sprintf("bcrypt cost 2^%d ≈ 0.2 s per key derivation: quick tier runs %d armor cases (%d sampled ciphertext positions each) and %d keybase cases; thorough mutates every ciphertext byte of %d armor cases", bcryptCost, nArm, nMut, nKb, 140))
+	c.Set("bcrypt_note", fmt.Sprintf("bcrypt cost 2^%d ≈ 0.2 s per key derivation: quick tier runs %d armor cases (%d sampled ciphertext positions each) and %d keybase cases; thorough mutates every ciphertext byte of %d armor cases", bcryptCost, nArm, nMut, nKb, 100))
 	c.Assume("salt and secretbox nonce are drawn from the OS CSPRNG by the code under test; armor texts are not seed-reproducible, oracle outcomes do not depend on them")
 	c.Assume("tm2/pkg/crypto/armor (OpenPGP armor codec) is used as a tool to re-armor mutated ciphertext; golang.org/x/crypto secretbox and tm2 bcrypt are used by the format twin")
 	c.Assume("BIP-32 degenerate steps (IL ≥ n or zero child key, probability ≈ 2^-127) are skipped if the reference meets one")
